@@ -27,6 +27,10 @@ import DiskfsModel.Proofs.IsoExtent
 import DiskfsModel.Proofs.IsoImage
 import DiskfsModel.Proofs.IsoWrites
 import DiskfsModel.Proofs.IsoSusp
+import DiskfsModel.Proofs.IsoSuspCE
+import DiskfsModel.Proofs.IsoCompose
+import DiskfsModel.Proofs.IsoSL
+import DiskfsModel.Proofs.IsoPT
 import DiskfsModel.Generated.Iso
 namespace Diskfs.Iso.C06
 
@@ -262,6 +266,39 @@ theorem ce_overflow_as_found :
     (assemble false 2048 10 [ext20, ext20, ext20, ext20] 60 [50, 51]).map (·.map (·.length)) = some [88, 20] ∧
     (assemble true 2048 10 [ext20, ext20, ext20, ext20] 60 [50, 51]).map (·.map (·.length)) = some [48, 60] := by decide
 
+/-- **continuation areas round-trip** (fix 4937c9f: every area in its own block).  Take any extensions,
+    given by their raw entries (each with its own length 4..255 in byte 2, each parseable, none of
+    them a CE entry: PX, TF, NM, SL, ... entries), let `dirEntryExtensionsToBytes` distribute them over
+    the record's area and continuation areas — as found or with the repaired rule —, and let the
+    device return every area at the block its CE entry names (at most 64 areas, block numbers and
+    lengths below 2^32).  Then `parseDirEntry`'s loop (read the area the last CE entry points at,
+    parse it, put its entries in the place of the CE entry) returns exactly the entries of all
+    extensions, in order: with `nm_roundtrip` a name of any length, with `ReadLink` a target in
+    several SL entries, come back whole however they were spread over areas. -/
+theorem ce_roundtrip (res : Bool) (bs : Nat) (rd : Nat → Nat → Nat → Bytes) (fuel : Nat) (raws : List (List Bytes))
+    (maxSize : Nat) (ce : List Nat) (a : Bytes) (more : List Bytes) (hraw : RawOK raws) (hce : ∀ c ∈ ce, c < 2 ^ 32)
+    (h : assemble res bs fuel (raws.map List.flatten) maxSize ce = some (a :: more))
+    (hlen : ∀ x ∈ more, x.length < 2 ^ 32) (hrd : RdOK rd ce more) (hn : more.length ≤ maxAreas) :
+    ∃ ps, parseAll raws.flatten = some ps ∧ readSusp rd a = some ps :=
+  readSusp_assemble res bs rd fuel raws maxSize ce a more hraw hce h hlen hrd hn
+
+private def exRaws : List (List Bytes) := [[ext20], [ext20], [ext20], [nmEntry false [120, 121]]]
+private theorem exRawOK : RawOK exRaws := by
+  intro r hr e he
+  simp only [exRaws, List.mem_cons, List.not_mem_nil, or_false] at hr
+  rcases hr with rfl | rfl | rfl | rfl <;> (simp only [List.mem_singleton] at he; subst he)
+  · exact ⟨by unfold EntOK; decide, .other [90, 90], by decide, rfl⟩
+  · exact ⟨by unfold EntOK; decide, .other [90, 90], by decide, rfl⟩
+  · exact ⟨by unfold EntOK; decide, .other [90, 90], by decide, rfl⟩
+  · exact ⟨by unfold EntOK; decide, .nm false false false [120, 121], by decide, rfl⟩
+/-- the hypotheses of `ce_roundtrip` are satisfiable: three 20-byte entries stay in a record area of 88
+    bytes, the name goes to block 50 -/
+example : ∃ ps, parseAll exRaws.flatten = some ps ∧
+    readSusp (fun loc _ _ => if loc = 50 then nmEntry false [120, 121] else [])
+      (ext20 ++ ext20 ++ ext20 ++ ceEntry 50 0 7) = some ps :=
+  ce_roundtrip false 2048 (fun loc _ _ => if loc = 50 then nmEntry false [120, 121] else []) 10 exRaws 60 [50, 51] _ [nmEntry false [120, 121]]
+    exRawOK (by decide) (by decide) (by decide) ⟨by decide, trivial⟩ (by decide)
+
 /-- **Joliet names round-trip** for code points of the Basic Multilingual Plane that are no
     surrogates: `bytesToUCS2String (ucs2StringToBytes s) = s` (beyond the BMP the encoder drops the
     high bits: recorded finding iso-joliet-nonbmp-name, counterexample below) -/
@@ -367,5 +404,206 @@ example : imI.writesGo.map (·.off) = [0, 36864, 38912, 40960, 43008, 43011, 327
 example : (chunkWrs 4 10 100 [1, 2, 3, 4, 5, 6, 7, 8, 9, 10]).map (fun w => (w.off, w.data)) =
     [(100, [1, 2, 3, 4]), (104, [5, 6, 7, 8]), (108, [9, 10])] := by decide
 example : (fileWrs 8 96 [1, 2, 3, 4, 5, 6, 7, 8, 9, 10]).map (fun w => (w.off, w.data.length)) = [(96, 10), (106, 6)] := by decide
+
+/-! ## THE COMPOSITION: from a workspace tree to what the reader returns -/
+
+/-- **workspace_roundtrip** (plain configuration).  Take ANY workspace tree `w` (entries with host
+    names of any code points, kinds, file contents, dates; children in WalkDir order), let
+    `calculateShortnameExtension` + collision resolution name the children of every directory (`fin`,
+    for ANY processing order of the collision groups under which resolution succeeds: `Resolved`),
+    lay directories, path tables and files out one after the other from block 18 in ANY order that
+    lists every directory and every file once (`OK`; `collapseAndSortChildren`'s order is
+    one), encode directory extents, path tables and the primary volume descriptor, issue the WriteAt
+    calls of Finalize as the Go code does (2048-byte copy chunks, zero fill) onto a device holding
+    ANYTHING (`d0`), and start the reader at sector 16.  Then
+    (1) the reader returns the descriptor and the depth-first listing of the tree `w.ptree …`, whose
+        shape, kinds and file CONTENTS are the workspace's by definition (`kids := w.kids`,
+        `content := w.content`, record order = WalkDir order), whose sizes are the content lengths and
+        whose names are `w.ident`;
+    (2) `w.ident` of a child is the documented rule — `isoIdent` (SHORT for directories, SHORT.EXT;1
+        for files) of the resolved 8.3 name, which is valid — and siblings get DIFFERENT identifiers
+        (composition of `short_name_valid`, `resolve_injective` and injectivity of the identifier
+        syntax; extensions survive resolution);
+    (3) every piece behind the descriptor set (directory extents, both path tables, file extents, each
+        in whole blocks) starts at or after block 18, ends inside the declared volume size
+        (`w.total` = the PVD's volume size) and they follow each other without overlap.
+    Stated limits: block size 2048 ≤ bs < 65536; the image is smaller than 4 GiB
+    (`w.total * bs < 2^32`: hence every file below 4 GiB, every location and directory size in 32
+    bits); nesting depth ≤ `fuel` (8 without DeepDirectories); 7-byte dates; the workspace is a tree
+    (`OK`).  NOT in this theorem: Rock Ridge / Joliet / El Torito, and that the real Finalize computes
+    this `ImageIn` — that is the correspondence op iso.compose on real images. -/
+theorem workspace_roundtrip (w : WTree) (order : Nat → List Nm) (fin : Nat → Nat → Nm) (bs : Nat) (o : Order)
+    (sysId volId tail : Bytes) (d0 : Dev) (fuel : Nat)
+    (hbs : 2048 ≤ bs) (hbs16 : bs < 2 ^ 16) (hok : w.OK o) (hr : w.Resolved order fin)
+    (hlim : w.total fin bs o * bs < 2 ^ 32) (hs : sysId.length = 32) (hv : volId.length = 32) (ht : tail.length = 1858)
+    (hfit : w.Fits fuel 0) :
+    readImageP ((w.image fin bs o sysId volId tail).imageOn d0) (16 * bs) fuel =
+      some ((w.image fin bs o sysId volId tail).pvd, (w.ptree fin (w.loc fin bs o) (w.size fin bs)).walk fuel [] 0) ∧
+    (∀ d, d < w.n → w.isDir d = true →
+      (∀ c ∈ w.kids d, w.ident fin c = strBytes (isoIdent (fin d ((w.kids d).idxOf c)) (w.isDir c)) ∧
+        Valid83 (fin d ((w.kids d).idxOf c))) ∧
+      (∀ c1 ∈ w.kids d, ∀ c2 ∈ w.kids d, c1 ≠ c2 → w.ident fin c1 ≠ w.ident fin c2)) ∧
+    ((∀ x ∈ (w.image fin bs o sysId volId tail).mid,
+        (dataStartSector + 2) * bs ≤ x.off ∧ x.off + x.data.length ≤ w.total fin bs o * bs) ∧
+      (w.image fin bs o sysId volId tail).mid.Pairwise (fun a b => a.off + a.data.length ≤ b.off)) :=
+  ⟨compose_reader w order fin bs o sysId volId tail hbs hbs16 hok hr hlim hs hv ht d0 fuel hfit,
+   fun d hd hdir => ⟨fun c hc => ⟨((ident_facts w order fin o hok hr d hd hdir).1 c hc).2,
+      (resolved_facts w order fin hr d hd hdir).2.1 _ (List.idxOf_lt_length_of_mem hc)⟩,
+     (ident_facts w order fin o hok hr d hd hdir).2⟩,
+   compose_extents w fin bs o sysId volId tail (by omega) hok⟩
+
+private def wsDate : Bytes := [126, 1, 1, 0, 0, 0, 0]
+/-- workspace: a.txt (3 bytes) and directory d holding b (1 byte) -/
+private def ws : WTree :=
+  { n := 4
+    name := fun i => if i = 1 then [97, 46, 116, 120, 116] else if i = 2 then [100] else if i = 3 then [98] else []
+    isDir := fun i => i = 0 ∨ i = 2
+    content := fun i => if i = 1 then [7, 7, 7] else if i = 3 then [9] else []
+    date := fun _ => wsDate
+    kids := fun d => if d = 0 then [1, 2] else if d = 2 then [3] else []
+    parent := fun c => if c = 3 then 2 else 0 }
+private def wsO : Order := { dirs := [0, 2], files := [1, 3], pt := [0, 2] }
+private def wsFin : Nat → Nat → Nm := fun d => ws.orig d
+
+private theorem wsOK : ws.OK wsO :=
+  { pos := by decide, rootDir := by decide, kidsLt := by decide, kidsPar := by decide, kidsNodup := by decide,
+    parLt := by decide, inKids := by decide, date7 := by decide, dirsNodup := by decide, filesNodup := by decide,
+    dirsOK := by
+      intro d
+      by_cases h : d < 4
+      · have : d = 0 ∨ d = 1 ∨ d = 2 ∨ d = 3 := by omega
+        rcases this with rfl | rfl | rfl | rfl <;> decide
+      · simp only [wsO, ws, List.mem_cons, List.not_mem_nil, or_false]; simp only [decide_eq_true_eq]; omega
+    filesOK := by
+      intro d
+      by_cases h : d < 4
+      · have : d = 0 ∨ d = 1 ∨ d = 2 ∨ d = 3 := by omega
+        rcases this with rfl | rfl | rfl | rfl <;> decide
+      · simp only [wsO, ws, List.mem_cons, List.not_mem_nil, or_false]; simp only [decide_eq_false_iff_not]; omega }
+
+private theorem wsRes : ws.Resolved (fun _ => []) wsFin :=
+  { res := fun _ _ _ => rfl
+    cover := by
+      intro d hd hdir i hi hm
+      have hd' : d = 0 ∨ d = 1 ∨ d = 2 ∨ d = 3 := by simp only [ws] at hd; omega
+      rcases hd' with rfl | rfl | rfl | rfl
+      · have : i = 0 ∨ i = 1 := by simp [ws] at hi; omega
+        rcases this with rfl | rfl <;> exact absurd hm (by decide)
+      · exact absurd hdir (by decide)
+      · have : i = 0 := by simp [ws] at hi; omega
+        subst this; exact absurd hm (by decide)
+      · exact absurd hdir (by decide) }
+
+private theorem wsFits : ws.Fits 3 0 := by simp [WTree.Fits, ws]
+example : ws.total wsFin 2048 wsO * 2048 < 2 ^ 32 := by decide +kernel
+example : (List.range 4).map (ws.ident wsFin) = [[0], [65, 46, 84, 88, 84, 59, 49], [68], [66, 46, 59, 49]] := by decide +kernel
+example : (List.range 6).map (ws.loc wsFin 2048 wsO) = [18, 22, 19, 23, 20, 21] := by decide +kernel
+
+/-- the hypotheses of `workspace_roundtrip` are satisfiable (device pre-filled with 0xFF) -/
+example : readImageP ((ws.image wsFin 2048 wsO (zeros 32) (zeros 32) (zeros 1858)).imageOn (fun _ => 255)) (16 * 2048) 3 =
+    some ((ws.image wsFin 2048 wsO (zeros 32) (zeros 32) (zeros 1858)).pvd,
+      (ws.ptree wsFin (ws.loc wsFin 2048 wsO) (ws.size wsFin 2048)).walk 3 [] 0) :=
+  (workspace_roundtrip ws (fun _ => []) wsFin 2048 wsO (zeros 32) (zeros 32) (zeros 1858) (fun _ => 255) 3
+    (by decide) (by decide) wsOK wsRes (by decide +kernel) (by simp) (by simp) (by simp) wsFits).1
+
+/-! ## the SL encoder (Model/Iso/SymlinkEnc.lean) -/
+
+/-- **sl_roundtrip**: for EVERY link target whose components (`splitPath`: the non-empty parts between
+    slashes — and, as found, backslashes) are at most 248 bytes long, the SL entries
+    `rockRidgeSymlink.Bytes` makes (root record, `.`, `..`, name records; an entry is closed and flagged
+    "continued" when the next record would make its component area longer than 247 bytes; a record is
+    never split, fix 62ffa5f) are well-formed system use entries (so `susp_split_roundtrip` /
+    `ce_roundtrip` carry them through areas), each parses as an SL entry, and `ReadLink`
+    (`joinSymlinkParts`, fix 0fd6be8) returns exactly the target the component records spell:
+    `slRender` = "/" for the root record, the components joined by "/".  That is the target itself
+    when it is in normal form (`sl_normal_form` below); empty components and a trailing slash are not
+    representable in component records and are dropped. -/
+theorem sl_roundtrip (uni : Bool) (t : Bytes) (hlen : ∀ c ∈ slComps uni t, c.length ≤ 248) :
+    (∀ e ∈ slEntries uni t, EntOK e) ∧
+    ∃ ps, parseAll (slEntries uni t) = some ps ∧ readLink ps = some (slRender (slItems uni t) []) :=
+  sl_target_roundtrip uni t hlen
+
+/-- the same on component records: ANY components that are non-empty, free of slashes and at most 248
+    bytes long, behind an optional root record, come back as the target they spell -/
+theorem sl_components_roundtrip (root : Bool) (comps : List Bytes) (hc : ∀ c ∈ comps, c ≠ [] ∧ 47 ∉ c ∧ c.length ≤ 248) :
+    ∃ ps, parseAll (slPack (((if root then [none] else []) ++ comps.map some).map encItem) []) = some ps ∧
+      readLink ps = some (slRender ((if root then [none] else []) ++ comps.map some) []) :=
+  sl_items_roundtrip root comps hc
+
+/-- **the exact set Finalize refuses** (recorded finding iso-rr-symlink-over-block, fix 6475c24 turned the
+    panic into an error): the SL entries of one target are ONE extension for
+    `dirEntryExtensionsToBytes`; when they are longer than a block, then whatever stands before them
+    (PX, TF, NM), whatever room the record has and however many continuation blocks there are, the
+    call fails — and when they fit a block they are placed whole in a continuation area of their own -/
+theorem sl_refused (bs : Nat) (sl : Bytes) (fuel : Nat) (exts : List Bytes) (maxSize : Nat) (ce : List Nat)
+    (hm : maxSize ≤ bs) :
+    (sl.length > bs → assemble true bs fuel (exts ++ [sl]) maxSize ce = none) ∧
+    (sl.length ≤ bs → assemble true bs (fuel + 1) [sl] bs ce = some [sl]) :=
+  ⟨fun h => assemble_refuses bs sl h fuel exts maxSize ce hm, fun h => assemble_single bs fuel sl ce h⟩
+
+/-- **sl_normal_form**: the targets spelled by an optional root record and components that are non-empty,
+    free of slashes and at most 248 bytes long ("/", "a", "../b/c", "/usr/lib", ...) are the normal
+    forms: with the repaired splitting rule (`uni = false`: only "/" separates) such a target splits
+    into exactly these records again, so by `sl_roundtrip` ReadLink returns it BYTE FOR BYTE; as found
+    (`uni = true`) the same holds when it contains no backslash (correspondence iso.slenc) -/
+theorem sl_normal_form (root : Bool) (comps : List Bytes) (hc : ∀ c ∈ comps, c ≠ [] ∧ 47 ∉ c ∧ c.length ≤ 248) :
+    ∃ ps, parseAll (slEntries false (slRender ((if root then [none] else []) ++ comps.map some) [])) = some ps ∧
+      readLink ps = some (slRender ((if root then [none] else []) ++ comps.map some) []) := by
+  have h := slItems_render root comps hc
+  have := sl_items_roundtrip root comps hc
+  unfold slEntries
+  rw [h]
+  exact this
+
+/-! witnesses -/
+-- "../lib/x" : three records in one entry; comes back unchanged
+example : slBytes true [46, 46, 47, 108, 105, 98, 47, 120] = [83, 76, 15, 1, 0, 4, 0, 0, 3, 108, 105, 98, 0, 1, 120] := by decide
+example : (parseAll (slEntries true [46, 46, 47, 108, 105, 98, 47, 120])).bind readLink = some [46, 46, 47, 108, 105, 98, 47, 120] := by decide
+-- "/" alone and "/a": the root record
+example : (parseAll (slEntries true [47])).bind readLink = some [47] := by decide
+example : (parseAll (slEntries true [47, 97])).bind readLink = some [47, 97] := by decide
+-- "a//b/" is stored as a, b: it comes back as "a/b" (not representable otherwise)
+example : (parseAll (slEntries true [97, 47, 47, 98, 47])).bind readLink = some [97, 47, 98] := by decide
+-- as found a backslash splits the target (a\b comes back as a/b: recorded finding iso-rr-symlink-backslash); repaired it does not
+example : (parseAll (slEntries true [97, 92, 98])).bind readLink = some [97, 47, 98] := by decide
+example : (parseAll (slEntries false [97, 92, 98])).bind readLink = some [97, 92, 98] := by decide
+-- a component of 249 bytes: the length byte of its entry wraps to 0 (recorded finding iso-rr-symlink-long-component)
+example : ((slEntries true (List.replicate 249 120)).map fun e => (e.getD 2 0).toNat) = [5, 0] := by decide +kernel
+example : ((slEntries true (List.replicate 248 120)).map fun e => (e.getD 2 0).toNat) = [5, 255] := by decide +kernel
+/-! ## path table (item: lookup through the path table = walk from the root) -/
+
+/-- **pathtable_lookup_is_walk**: in EVERY well-formed path table (`PtWF`: a directory's record comes
+    after its parent's, two records with the same parent number have different names, none is named
+    "." — what `createPathTable` produces for every laid-out tree: level order, sibling identifiers
+    distinct by `workspace_roundtrip` (2); checked on the tables of real images by iso.ptwalk), for
+    EVERY chain of directories root → b₁ → … → bₘ (each record the child of the one before),
+    `pathTable.getLocation` (fix 80ad899: one forward pass, the parent number must be the record
+    matched last) on the path spelled by their names returns the extent recorded for bₘ — the extent a
+    walk through the directory records along the same names arrives at (`reader_walks_tree`). -/
+theorem pathtable_lookup_is_walk (T : List PtRec) (hwf : PtWF T) (b : Nat) (rest : List Nat) (hch : IsChain T 1 (b :: rest)) :
+    ptLookup T ((b :: rest).map fun k => (ptRec T k).name) = (ptRec T ((b :: rest).getLast (by simp))).loc :=
+  ptLookup_chain T hwf b rest hch
+
+/-- ... and every directory other than the root is the end of such a chain: the lookup reaches every
+    record of the table -/
+theorem pathtable_reaches_every_directory (T : List PtRec) (hwf : PtWF T) (i : Nat) (h2 : 2 ≤ i) (hl : i ≤ T.length) :
+    ∃ l, IsChain T 1 (l ++ [i]) := chain_exists T hwf i i (Nat.le_refl _) h2 hl
+
+private def exPT : List PtRec := [⟨[0], 18, 1⟩, ⟨[65], 19, 1⟩, ⟨[66], 20, 1⟩, ⟨[67], 21, 2⟩, ⟨[67], 22, 3⟩]
+private theorem exPTwf : PtWF exPT := by
+  refine ⟨?_, ?_, ?_⟩
+  · intro i h2 hl
+    have : i = 2 ∨ i = 3 ∨ i = 4 ∨ i = 5 := by simp [exPT] at hl; omega
+    rcases this with rfl | rfl | rfl | rfl <;> decide
+  · intro i j hi hil hj hjl
+    have h1 : i = 1 ∨ i = 2 ∨ i = 3 ∨ i = 4 ∨ i = 5 := by simp [exPT] at hil; omega
+    have h2 : j = 1 ∨ j = 2 ∨ j = 3 ∨ j = 4 ∨ j = 5 := by simp [exPT] at hjl; omega
+    rcases h1 with rfl | rfl | rfl | rfl | rfl <;> rcases h2 with rfl | rfl | rfl | rfl | rfl <;> decide
+  · intro i h2 hl
+    have : i = 2 ∨ i = 3 ∨ i = 4 ∨ i = 5 := by simp [exPT] at hl; omega
+    rcases this with rfl | rfl | rfl | rfl <;> decide
+/-- the hypotheses are satisfiable: /B/C (records 3, 5) is found at block 22, not the C below A -/
+example : ptLookup exPT [[66], [67]] = 22 :=
+  pathtable_lookup_is_walk exPT exPTwf 3 [5] (by simp [IsChain, exPT, ptRec])
 
 end Diskfs.Iso.C06
